@@ -588,6 +588,15 @@ def run(ctx):
                          "text protocol cannot render result code %d" % k, {"case": tcases[k], "go": tout[k]})
 
     if not quick:
+        # bridges to the hand models of other properties (outside the C14 cone; informational)
+        saved = (ctx.coq_log, ctx.coq_time, getattr(ctx, "coq_failure", None))
+        okb, _ = ctx.coq(["Codec/AofBridge.vo", "Codec/DecisionBridge.vo"])
+        stats["bridges_compile"] = bool(okb)
+        if not okb:
+            ctx.notes.append("Codec/AofBridge.v or Codec/DecisionBridge.v no longer compiles against coq/Aof, coq/Engine: " + getattr(ctx, "coq_failure", "")[:400])
+        ctx.coq_log, ctx.coq_time = saved[0], saved[1]
+        if saved[2] is None and hasattr(ctx, "coq_failure"):
+            del ctx.coq_failure
         okc, outc = ctx.coqchk(["Slock.Properties.C14"])
         ctx.obligation("coqchk -o Slock.Properties.C14", okc, outc[-600:])
         ctx.trusted.append("coqchk -o: " + " ".join(outc.split())[-400:])
@@ -622,7 +631,12 @@ def run(ctx):
         "translator_markers": len(markers),
         "coq_seconds": round(getattr(ctx, "coq_time", 0), 1),
         "corpus_cases": len(corpus_lines),
+        "bridges_compile": stats.get("bridges_compile", "not checked in the quick tier"),
     }
+    # the text-protocol half of C14 (parser chunking / round trip, key normalisation, text LOCK conversion)
+    from checks import C14_text
+    vlib.run_sub(ctx, "C14_text", C14_text)
+    vlib.merge_sub_evidence(cov, ["C14_text"])
     return ctx.finish(cov, assumptions=[
         "buffers have at least 64 bytes (the frame size); Go field types bound the field values",
         "CALL method names / error types / leader host: no leading or trailing NUL byte, length <= 38 / 37 / 43, HostLen = len(Host)",
